@@ -62,6 +62,7 @@ static std::string run_removal(int ncells, const History& h, size_t* final_pop =
                 if (below) expect_gone.insert(c->get_id()); else if (above) order_before.push_back(c->get_id()); else order_before.push_back(c->get_id() | 0x80000000u); } };
         for (size_t it = 0; it < h.size(); it++) { auto& L = W.cells();
             for (size_t i = 0; i < L.size() && i < h[it].size(); i++) if (h[it][i]) { cell& c = *L[i]; double v = c.compute_volume(); c.cell_type_ = std::make_shared<cell_type_parameters>(*c.cell_type_); c.cell_type_->min_vol_ = 0.6 * v; sw::scale_cell(c, 0.8); }
+            if (L.empty()) break;   // solver::run stops on an empty population
             W.s->run_iteration();
             std::vector<unsigned> after; for (auto& c : W.cells()) after.push_back(c->get_id());
             for (unsigned id : after) { if (expect_gone.count(id)) { snprintf(buf, sizeof buf, "cell-below-minimum-volume-not-removed: id %u after iteration %zu", id, it); return buf; } if (gone_ids.count(id)) { snprintf(buf, sizeof buf, "removed-cell-reappeared: id %u", id); return buf; } }
